@@ -66,9 +66,9 @@ example :
                      resErr := fun _ => false, returnExc := false }
     ∃ s, Reachable c s ∧ Final s ∧ s.closeReq = true ∧ s.out = [0] := by
   refine ⟨_, ⟨[.pull, .fcheck, .submit, .put, .get, .pull, .fcheck, .submit, .put, .pull, .fcheck,
-              .submit, .put, .pull, .fcheck, .submit, .start, .finish 0, .yld, .close, .setStop,
+              .submit, .put, .pull, .fcheck, .submit, .start 0, .finish 0, .yld, .close, .setStop,
               .drainCancel, .drainCancel, .drainEmpty, .put, .pull, .stopSeen, .putEnd, .join,
-              .start, .finish 3], rfl⟩, ?_⟩
+              .start 3, .finish 3], rfl⟩, ?_⟩
   decide
 
 end Fifo
